@@ -27,6 +27,124 @@ pub struct Case {
     pub string_ids: bool,
     pub pull: bool,
     pub schedule: Vec<u8>,
+    /// Some(k): instead of the in-process sequence, talk to the REAL `emmylua_ls` binary over stdio and send the
+    /// `initialize` variant k (the handshake lives in run_ls, outside the in-process surface)
+    #[serde(default)]
+    pub handshake: Option<u8>,
+}
+
+/// `initialize` params variants: 0 well-formed, others do not deserialize or are odd
+pub fn initialize_params(k: u8) -> Value {
+    match k % 9 {
+        0 => json!({"processId": null, "rootUri": null, "capabilities": {}}),
+        1 => json!({"processId": null, "rootUri": null, "capabilities": "not-an-object"}),
+        2 => json!({"processId": null, "rootUri": null, "capabilities": {"textDocument": 5}}),
+        3 => json!({"processId": null, "rootUri": null, "capabilities": {"workspace": {"workspaceFolders": "yes"}}}),
+        4 => json!({"processId": "pid", "capabilities": {}}),
+        5 => json!([1, 2, 3]),
+        6 => Value::Null,
+        7 => json!({"capabilities": {}, "workspaceFolders": [{"uri": 1, "name": 2}]}),
+        _ => json!({"capabilities": {"general": {"positionEncodings": 7}}}),
+    }
+}
+
+fn ls_bin() -> std::path::PathBuf {
+    let root = std::env::var("VERIF_ROOT").unwrap_or_else(|_| "/verif".into());
+    std::path::Path::new(&root).join("harness/target-bins/release/emmylua_ls")
+}
+
+/// Sends one framed `initialize` request (id 1) to the real server; returns the number of responses with id 1 seen
+/// within the deadline (result xor error each), or Err(text) when a response is malformed.
+fn stdio_handshake(k: u8) -> Result<usize, String> {
+    use std::io::{Read, Write};
+    use std::process::{Command, Stdio};
+    let dir = crate::ls::disk::TempWs::new("c24hs");
+    let mut child = Command::new(ls_bin())
+        .args(["--log-level", "error", "--log-path", "none"])
+        .current_dir(&dir.root)
+        .stdin(Stdio::piped())
+        .stdout(Stdio::piped())
+        .stderr(Stdio::null())
+        .spawn()
+        .map_err(|e| format!("spawn: {e}"))?;
+    let body = serde_json::to_string(&json!({"jsonrpc": "2.0", "id": 1, "method": "initialize", "params": initialize_params(k)})).unwrap();
+    let mut stdin = child.stdin.take().unwrap();
+    let _ = write!(stdin, "Content-Length: {}\r\n\r\n{}", body.len(), body);
+    let _ = stdin.flush();
+    let mut stdout = child.stdout.take().unwrap();
+    let (tx, rx) = std::sync::mpsc::channel::<Vec<u8>>();
+    std::thread::spawn(move || {
+        let mut buf = [0u8; 4096];
+        loop {
+            match stdout.read(&mut buf) {
+                Ok(0) | Err(_) => break,
+                Ok(n) => {
+                    if tx.send(buf[..n].to_vec()).is_err() {
+                        break;
+                    }
+                }
+            }
+        }
+    });
+    let mut acc: Vec<u8> = vec![];
+    let deadline = std::time::Instant::now() + std::time::Duration::from_secs(30);
+    let mut responses = 0usize;
+    let mut result: Result<(), String> = Ok(());
+    'outer: loop {
+        // parse complete frames
+        loop {
+            let text = String::from_utf8_lossy(&acc).to_string();
+            let Some(h) = text.find("\r\n\r\n") else { break };
+            let len: usize = text[..h].lines().find_map(|l| l.strip_prefix("Content-Length: ").and_then(|x| x.trim().parse().ok())).unwrap_or(0);
+            if acc.len() < h + 4 + len {
+                break;
+            }
+            let frame: Vec<u8> = acc[h + 4..h + 4 + len].to_vec();
+            acc.drain(..h + 4 + len);
+            if let Ok(v) = serde_json::from_slice::<Value>(&frame) {
+                if v.get("id") == Some(&json!(1)) && v.get("method").is_none() {
+                    responses += 1;
+                    if v.get("result").is_some() == v.get("error").is_some() {
+                        result = Err(format!("response carries result and error, or neither: {v}"));
+                    }
+                    // one response seen: wait a little for a (wrong) second one, then stop
+                    std::thread::sleep(std::time::Duration::from_millis(150));
+                    while let Ok(more) = rx.try_recv() {
+                        acc.extend(more);
+                    }
+                    if acc.is_empty() {
+                        break 'outer;
+                    }
+                }
+            }
+        }
+        match rx.recv_timeout(std::time::Duration::from_millis(200)) {
+            Ok(more) => acc.extend(more),
+            Err(std::sync::mpsc::RecvTimeoutError::Timeout) => {
+                if std::time::Instant::now() > deadline {
+                    break;
+                }
+                if let Ok(Some(_)) = child.try_wait() {
+                    // process exited: drain what is left
+                    while let Ok(more) = rx.recv_timeout(std::time::Duration::from_millis(100)) {
+                        acc.extend(more);
+                    }
+                    if acc.is_empty() || !String::from_utf8_lossy(&acc).contains("\r\n\r\n") {
+                        break;
+                    }
+                }
+            }
+            Err(_) => {
+                if acc.is_empty() {
+                    break;
+                }
+            }
+        }
+    }
+    drop(stdin);
+    let _ = child.kill();
+    let _ = child.wait();
+    result.map(|_| responses)
 }
 
 pub const TEXTS: &[&str] = &[
@@ -89,14 +207,32 @@ impl Property for C24 {
     }
     fn strategy(&self, tier: Tier) -> BoxedStrategy<Case> {
         (proptest::collection::vec(msg_strategy(), 1..tier.pick(30, 60)), any::<bool>(), any::<bool>(), proptest::collection::vec(any::<u8>(), 0..40))
-            .prop_map(|(msgs, string_ids, pull, schedule)| Case { msgs, string_ids, pull, schedule })
+            .prop_map(|(msgs, string_ids, pull, schedule)| Case { msgs, string_ids, pull, schedule, handshake: None })
             .boxed()
+    }
+    fn fixed_cases(&self, _tier: Tier) -> Vec<Case> {
+        // the stdio handshake variants against the real binary (enumerated, not sampled)
+        (0..9u8).map(|k| Case { msgs: vec![], string_ids: false, pull: false, schedule: vec![], handshake: Some(k) }).collect()
     }
     fn on_uncaught_panic(&self, msg: &str) -> Verdict {
         Verdict::fail(format!("panic:{}", panic_site(msg)), format!("a notification handled inline by the main loop panicked: {msg}"))
     }
     fn local(&self) {}
     fn check(&self, c: &Case, _: &mut (), obs: &mut Obs) -> Verdict {
+        if let Some(k) = c.handshake {
+            if !ls_bin().exists() {
+                return Verdict::Skip("emmylua_ls-binary-missing".into());
+            }
+            obs.class("stdio-handshake");
+            return match stdio_handshake(k) {
+                Ok(1) => Verdict::pass(k % 9 != 0),
+                Ok(n) => Verdict::fail(
+                    if n == 0 { "initialize:no-response" } else { "initialize:several-responses" },
+                    format!("real emmylua_ls over stdio: initialize with params {} got {n} responses", initialize_params(k)),
+                ),
+                Err(e) => Verdict::fail("initialize:malformed-response", e),
+            };
+        }
         let _ = take_panics();
         let mut ls = Ls::new(LsOpts { pull_diagnostics: c.pull, schedule: c.schedule.clone(), ..Default::default() });
         let uris: Vec<_> = (0..3).map(|d| uri_for(&format!("/virtual_c24/doc{d}.lua"))).collect();
